@@ -79,6 +79,8 @@ theorem demo_writable : Writable Gen.consts demoTs := by decide +kernel
 example : ((find? demoTs "x.B").map (fun t => (t.own.map (·.name), t.inh.map (·.name)))) =
     some (["f", "ints", "lst"], ["begin", "end", "sofa", "f", "self_", "arr", "top"]) := by decide +kernel
 
+theorem demo_noPct : NoPercentNames demoTs := by decide +kernel
+
 theorem demo_save : ∃ doc st, saveJson Gen.consts demoTs [Cas.empty] 0 [] .full = .ok (doc, st) := by
   have h : (match saveJson Gen.consts demoTs [Cas.empty] 0 [] .full with
     | .ok _ => true | .error _ => false) = true := by decide +kernel
@@ -92,8 +94,9 @@ theorem demo_full_ts_same : ∃ doc st ts', saveJson Gen.consts demoTs [Cas.empt
     loadTs Gen.consts Gen.builtinTS true doc = .ok ts' ∧ SameTs demoTs ts' := by
   obtain ⟨doc, st, hs⟩ := demo_save
   have hw := demo_writable
-  rw [← demo_eq] at hs hw ⊢
-  obtain ⟨ts', hl, hsame⟩ := json_full_ts_same_aux demoOps ⟨demo_userOnly, demo_noDoc⟩ hw _ _ _ doc st hs
+  have hpc := demo_noPct
+  rw [← demo_eq] at hs hw hpc ⊢
+  obtain ⟨ts', hl, hsame⟩ := json_full_ts_same_aux demoOps ⟨demo_userOnly, demo_noDoc⟩ hw hpc _ _ _ doc st hs
   exact ⟨doc, st, ts', hs, hl, hsame⟩
 
 /-- `Writable` is not constantly true: an empty description is not writable -/
